@@ -37,14 +37,28 @@ def observe(cat, k, old_j, new_j):
             "flines": flines, "glines": glines}
 
 
-def perturb(t, rnd, depth=0):
-    """beyond Configs(R): shuffle siblings, add rows the rulebook does not know"""
-    items = [{"row": n["row"], "kids": perturb(n["kids"], rnd, depth + 1)} for n in t]
+def perturb(t, rnd, depth=0, ign=((), ())):
+    """beyond Configs(R): shuffle siblings, add rows the rulebook does not know and rows it ignores (`!` rules: top-level ones at the top
+    level, %global ones inside blocks too)"""
+    items = [{"row": n["row"], "kids": perturb(n["kids"], rnd, depth + 1, ign)} for n in t]
     if rnd.random() < 0.5:
         rnd.shuffle(items)
     if rnd.random() < 0.3:
         items.insert(rnd.randint(0, len(items)), {"row": ["zzunknown", str(rnd.randint(1, 2))], "kids": []})
+    pats = ign[0] if depth == 0 else ign[1]
+    have = {tuple(i["row"]) for i in items}
+    for pat in pats:
+        if rnd.random() < 0.5:
+            row = [tk["w"] if tk["t"] == "lit" else "s%d" % rnd.randint(1, 2) for tk in pat]
+            if tuple(row) not in have:
+                have.add(tuple(row))
+                items.insert(rnd.randint(0, len(items)), {"row": row, "kids": []})
     return items
+
+
+def ign_patterns(rules):
+    top = [r["pat"] for r in rules if r.get("ign")]
+    return (top, [r["pat"] for r in rules if r.get("ign") and r.get("glob")])
 
 
 def run(ctx):
@@ -71,8 +85,9 @@ def run(ctx):
                 batch.append(rec)
             # perturbed trees
             cs = cat.configs[k]
+            ign = ign_patterns(cat.entries[k - 1]["rules"])
             for _ in range(60 if quick else 600):
-                o, n = perturb(rnd.choice(cs), rnd), perturb(rnd.choice(cs), rnd)
+                o, n = perturb(rnd.choice(cs), rnd, 0, ign), perturb(rnd.choice(cs), rnd, 0, ign)
                 rec = observe(cat, k, o, n)
                 rec["id"] = "%s-%s-p%d" % (prof, cat.names[k - 1], len(batch))
                 batch.append(rec)
